@@ -80,7 +80,7 @@ pub fn shapes_for_cfg(n: usize, reduced: bool) -> Vec<(usize, usize)> {
     if !reduced {
         return shapes_for(n);
     }
-    let mut v = vec![(0, 0), (1, 0), (0, 1), (1, 1), (n / 2, n - n / 2), (n, 1)];
+    let mut v = vec![(0, 0), (1, 0), (0, 1), (1, 1), (2, 1), (n / 2, n - n / 2), (n, 1)];
     v.sort();
     v.dedup();
     v
@@ -242,7 +242,7 @@ impl<const N: usize> World<N> {
 
     /// C02 for a submission: at every instant after a store, everything below the available index
     /// visible at that instant is complete, and the index is the last location to change.
-    fn check_c02_add(&self, prev_avail: u16, token: u16, chain: Option<&Chain>, succeeded: bool) {
+    fn check_c02_add(&self, prev_avail: u16, token: u16, chain: Option<&Chain>, succeeded: bool, want: &[(usize, usize, bool)]) {
         if self.tracer.is_none() {
             return;
         }
@@ -270,6 +270,12 @@ impl<const N: usize> World<N> {
                 }
                 match (self.refq.walk_snapshot(&a.snapshot[..16 * N], token), chain) {
                     (Ok(c), Some(fc)) => {
+                        // Complete means: it already describes exactly the submitted buffers.
+                        let ok = c.elems.len() == want.len()
+                            && c.elems.iter().zip(want.iter()).all(|(e, w)| e.len as usize == w.1 && e.write == w.2 && hal::with(|h| h.shares.iter().any(|s| s.paddr == e.addr && s.vaddr == w.0 && s.len == w.1)));
+                        if !ok {
+                            viol("C02", "entry-incomplete-at-publication", format!("at store #{} avail.idx covers the new entry but the chain the device reaches from it reads {:?}, which is not the {} submitted buffers (a descriptor field was not written)", i, c.elems, want.len()));
+                        }
                         if c != *fc {
                             viol("C02", "descriptors-after-index", format!("at store #{} avail.idx already covers the new entry but its chain reads {:?}; complete form is {:?}", i, c, fc));
                         }
@@ -520,6 +526,9 @@ impl<const N: usize> World<N> {
                 }
             }
             (Err(e), Ok(t)) => {
+                if hal::with(|h| h.log.len()) != log_before {
+                    viol("C04", "refused-add-shared", format!("add({},{}) with {} of {} descriptors held must be refused ({:?}) but buffers were shared with the device", ni, no, held, N, e));
+                }
                 viol("C03", "add-not-refused", format!("add({},{}) with {} of {} descriptors held returned Ok({}) but must be refused with {:?}", ni, no, held, N, t, e));
             }
             (Ok(()), Err(got)) => {
@@ -532,7 +541,8 @@ impl<const N: usize> World<N> {
                 // The device now looks at the ring (always; the state must be tracked).
                 let chain = self.oracle_add(token, prev_avail, &ins, &outs, log_before, check);
                 if check {
-                    self.check_c02_add(prev_avail, token, chain.as_ref(), true);
+                    let want: Vec<(usize, usize, bool)> = ins.iter().map(|b| (b.as_ptr() as usize, b.len(), false)).chain(outs.iter().map(|b| (b.as_ptr() as usize, b.len(), true))).collect();
+                    self.check_c02_add(prev_avail, token, chain.as_ref(), true, &want);
                 }
                 let heldn = match &chain {
                     Some(c) => c.descs.len(),
@@ -836,7 +846,7 @@ impl<const N: usize> World<N> {
         }
         let avail = q.available_desc();
         if !self.cfg.indirect {
-            if avail != N - held {
+            if avail != N.saturating_sub(held) {
                 viol("C03", "available_desc", format!("available_desc() = {} with {} of {} descriptors held", avail, held, N));
             }
         } else {
@@ -856,13 +866,13 @@ impl<const N: usize> World<N> {
         let mut seen = vec![false; N];
         let mut i = s.free_head as usize;
         let mut cnt = 0;
-        while cnt < N - held {
+        while cnt < N.saturating_sub(held) {
             if i >= N {
                 viol("C03", "free-list-range", format!("free list reaches index {} after {} entries", i, cnt));
                 break;
             }
             if seen[i] {
-                viol("C03", "free-list-cycle", format!("free list revisits descriptor {} after {} entries ({} expected)", i, cnt, N - held));
+                viol("C03", "free-list-cycle", format!("free list revisits descriptor {} after {} entries ({} expected)", i, cnt, N.saturating_sub(held)));
                 break;
             }
             if let Some(o) = owners[i] {
@@ -1056,7 +1066,7 @@ pub fn linear_run<const N: usize>(cfg: QCfg, cycles: usize) -> u64 {
             }
         }
         // The device completes everything in a rotating order.
-        while !w.inflight.is_empty() {
+        while !w.inflight.is_empty() && !crate::engine::chooser::has_violation() {
             r = r.wrapping_add(c + 1);
             let j = r % w.inflight.len();
             w.step(A_COMPLETE0 + j as u16, true);
@@ -1066,7 +1076,7 @@ pub fn linear_run<const N: usize>(cfg: QCfg, cycles: usize) -> u64 {
             w.step(A_POP_WRONG_OUT, true);
             steps += 1;
         }
-        while !w.fifo.is_empty() {
+        while !w.fifo.is_empty() && !crate::engine::chooser::has_violation() {
             w.step(A_POP_RIGHT, true);
             steps += 1;
         }
